@@ -175,7 +175,7 @@ func allClasses() []string {
 func behaviourSig() string {
 	cls := adversarialClasses()
 	for _, c := range cls {
-		if c == "to-popbelow" {
+		if c == "to-popbelow" || c == "popped-below-entry" {
 			return "pop-below-entry-depth"
 		}
 	}
